@@ -52,7 +52,12 @@ func (f *Add) Call(s *slip.Scope, args slip.List, depth int) (result slip.Object
 	case nil:
 		// leave as is
 	case slip.List:
-		list = ta
+		// An empty list is nil and owns no storage. Do not grow it in place
+		// as the capacity left over from a pop or cdr belongs to some other
+		// list.
+		if 0 < len(ta) {
+			list = ta
+		}
 	default:
 		slip.TypePanic(s, depth, "list", ta, "list")
 	}
